@@ -78,16 +78,61 @@ theorem argOK_braces (n mid a : Str) (hn : validName n = true) (hm1 : noNL mid) 
       rcases List.mem_append.1 hx with h | h
       · exact noBrace_name hcs x h
       · exact hm2 x h
-    have := neutral_cons (c := '$') (by decide) (neutral_braces c hmid ha.2)
+    have := neutral_cons (c := '$') (by decide) (neutral_braces c (noBrace_name hall c (List.mem_cons_self ..)) hmid ha.2)
     simpa using this
 
 end CV.Template
 namespace CV.Template
 
+/-- balanced literal braces leave the brace counter where it was, without reaching zero on the way -/
+theorem braceBal_neutral (s : Str) : ∀ (d : Nat), braceBal s d = true →
+    ∀ (rest : Str) (i : Nat) (o : Int), 1 ≤ o →
+      firstCloseGo (s ++ rest) i (o + d) = firstCloseGo rest (i + s.length) o := by
+  induction s with
+  | nil =>
+    intro d h rest i o _
+    simp only [braceBal, beq_iff_eq] at h
+    subst h; simp
+  | cons c cs ih =>
+    intro d h rest i o ho
+    by_cases h1 : c = '{'
+    · subst h1
+      simp only [braceBal] at h
+      rw [List.cons_append, firstCloseGo_open1]
+      have := ih (d + 1) h rest (i + 1) o ho
+      rw [show o + (d : Int) + 1 = o + ((d + 1 : Nat) : Int) by omega, this]
+      congr 1; simp; omega
+    · by_cases h2 : c = '}'
+      · subst h2
+        simp only [braceBal, Bool.and_eq_true, bne_iff_ne, ne_eq] at h
+        obtain ⟨hd, hb⟩ := h
+        rw [List.cons_append, firstCloseGo_close]
+        have h0 : (o + (d : Int) - 1 == 0) = false := by
+          rw [beq_eq_false_iff_ne]; omega
+        rw [h0]
+        simp only [Bool.false_eq_true, if_false]
+        have := ih (d - 1) hb rest (i + 1) o ho
+        rw [show o + (d : Int) - 1 = o + ((d - 1 : Nat) : Int) by omega, this]
+        congr 1; simp; omega
+      · have hb : braceBal cs d = true := by
+          rw [braceBal] at h
+          · exact h
+          · intro heq; exact h1 heq
+          · intro heq; exact h2 heq
+        have hskip := firstCloseGo_skip [c] (cs ++ rest) i (o + d)
+          (by intro x hx; simp at hx; subst hx; exact ⟨h1, h2⟩)
+        rw [List.cons_append]
+        simp only [List.singleton_append, List.length_singleton] at hskip
+        rw [hskip, ih d hb rest (i + 1) o ho]
+        congr 1; simp; omega
+
 theorem litOkArg_spec {s : Str} (h : litOkArg s = true) :
-    (∀ c ∈ s, c ≠ '$') ∧ noNL s ∧ NoBrace s := by
+    (∀ c ∈ s, c ≠ '$') ∧ noNL s ∧ Neutral s := by
   simp only [litOkArg, List.all_eq_true, Bool.and_eq_true, bne_iff_ne, ne_eq] at h
-  exact ⟨fun c hc => (h c hc).1.1.1, fun c hc => (h c hc).2, fun c hc => ⟨(h c hc).1.1.2, (h c hc).1.2⟩⟩
+  refine ⟨fun c hc => (h.1 c hc).1, fun c hc => (h.1 c hc).2, ?_⟩
+  intro rest i o ho
+  have := braceBal_neutral s 0 h.2 rest i o ho
+  simpa using this
 
 theorem litOkTop_spec {s : Str} (h : litOkTop s = true) : ∀ c ∈ s, c ≠ '$' := by
   simp only [litOkTop, List.all_eq_true, bne_iff_ne, ne_eq] at h
@@ -98,7 +143,7 @@ theorem seg_argOK : (s : Seg) → s.wf true = true → ArgOK s.render
   | .lit s, h => by
     simp only [Seg.wf, if_true] at h
     have := litOkArg_spec h
-    exact argOK_noBrace this.2.1 this.2.2
+    exact ⟨this.2.1, this.2.2⟩
   | .esc, _ => argOK_noBrace (by intro c hc; simp [Seg.render] at hc; subst hc; decide)
       (by intro c hc; simp [Seg.render] at hc; subst hc; decide)
   | .var n false, h => by
